@@ -1817,6 +1817,15 @@ def havoc_cell(it, name, cell):
         raise Unsupported(f"cannot havoc {type(cell).__name__}")
 
 
+def _call_contract(fn, what, *a):
+    """contract callbacks that do not fit the code any more (renamed local, restructured loop) make the
+    task UNDECIDED -- a structural mismatch is never a violation and never a checker crash"""
+    try:
+        return fn(*a)
+    except (KeyError, AttributeError, TypeError, IndexError, AssertionError) as e:
+        raise Unsupported(f"{what} does not match the structure of the code ({type(e).__name__}: {e})")
+
+
 def run_invariant_loop(it, s, env, spec, frame, ordinal, kind, iterable=None):
     from .interp import BreakEx, ContinueEx, Env
 
@@ -1835,7 +1844,7 @@ def run_invariant_loop(it, s, env, spec, frame, ordinal, kind, iterable=None):
             else:
                 g["pre"][name] = cur
     if spec.pre_capture:
-        g["pre"].update(spec.pre_capture(it, env))
+        g["pre"].update(_call_contract(spec.pre_capture, f"loop contract {tag} (pre-state)", it, env))
     seq = None
     vis = None
     if kind == "for":
@@ -1847,7 +1856,7 @@ def run_invariant_loop(it, s, env, spec, frame, ordinal, kind, iterable=None):
             g["seq"] = seq
             g["k"] = z3.IntVal(0)
     # 1. invariant holds on entry
-    for name, term in spec.invariant(it, env, g):
+    for name, term in _call_contract(spec.invariant, f"loop contract {tag}", it, env, g):
         ctx.oblige(f"{tag}.inv_init.{name}", term)
     # 2. havoc
     for name, knd in spec.carried.items():
@@ -1858,7 +1867,7 @@ def run_invariant_loop(it, s, env, spec, frame, ordinal, kind, iterable=None):
             pass
         env.vars[name] = havoc_value(it, name, knd, cur)
     for cf in spec.cells:
-        havoc_cell(it, "cell", cf(env))
+        havoc_cell(it, "cell", _call_contract(cf, f"loop contract {tag} (cells)", env))
     if kind == "for":
         if seq is not None:
             k = ctx.fresh("k", TInt)
@@ -1871,7 +1880,7 @@ def run_invariant_loop(it, s, env, spec, frame, ordinal, kind, iterable=None):
             ctx.assume(z3.ForAll([kk], z3.Implies(z3.Select(vis, kk), z3.Select(iterable.has, kk))))
             g["vis"] = vis
     # 3. assume invariant
-    for name, term in spec.invariant(it, env, g):
+    for name, term in _call_contract(spec.invariant, f"loop contract {tag}", it, env, g):
         ctx.assume(term)
     ctx.cover(f"{tag}.reachable")
     # 4. iterate or exit
@@ -1922,9 +1931,9 @@ def run_invariant_loop(it, s, env, spec, frame, ordinal, kind, iterable=None):
         else:
             g2["vis"] = z3.Store(vis, g["cur"], z3.BoolVal(True))
     if spec.step_lemmas:
-        for fact in spec.step_lemmas(it, env, g_pre):
+        for fact in _call_contract(spec.step_lemmas, f"lemma hook {tag}", it, env, g_pre):
             ctx.assume(fact)
-    for name, term in spec.invariant(it, env, g2):
+    for name, term in _call_contract(spec.invariant, f"loop contract {tag}", it, env, g2):
         ctx.oblige(f"{tag}.inv_preserved.{name}", term)
     raise PathEnd()
 
